@@ -288,6 +288,107 @@ theorem C36_oracle_sound (h : Heap) (hb : acyclicB h = true) : NoCycle (parOf h)
     rw [hid, key h.length a ha] at this
     exact absurd this (by decide)
 
+/-- **weights**: a priority update stores the frame's weight byte (zero-indexed, as on the wire) on the
+    re-prioritised OPEN stream and changes no other stream's weight — not that of a moved dependency
+    (RFC 7540 5.3.3 "retains its weight"), not those of adopted siblings; an update for a stream that is
+    not open changes nothing at all. -/
+theorem C36_weights {h h' : Heap} {sid dep : Nat} {excl : Bool} {w : Nat}
+    (ha : adjust h sid dep excl w = some h') :
+    (openNode h sid = none → h' = h) ∧
+    (∀ st, openNode h sid = some st →
+      weightOf h' sid = some w ∧ ∀ x, x ≠ sid → weightOf h' x = weightOf h x) := by
+  unfold adjust at ha
+  cases hst : openNode h sid with
+  | none => rw [hst] at ha; simp only at ha; cases ha; exact ⟨fun _ => rfl, fun st h => (by cases h)⟩
+  | some st =>
+    refine ⟨fun h => (by cases h), fun st' _ => ?_⟩
+    rw [hst] at ha
+    simp only at ha
+    have hfs := openNode_find hst
+    have hsw : weightOf (setWeight h sid w) sid = some w := by
+      rw [weightOf_setWeight]; simp [weightOf, hfs]
+    have hso : ∀ x, x ≠ sid → weightOf (setWeight h sid w) x = weightOf h x := by
+      intro x hx; rw [weightOf_setWeight]; simp [hx]
+    cases hp : openNode h dep with
+    | none =>
+      rw [hp] at ha; simp only at ha
+      injection ha with ha; subst ha
+      split
+      · exact ⟨(by rw [weightOf_adopt, weightOf_setParent]; exact hsw),
+          fun x hx => (by rw [weightOf_adopt, weightOf_setParent]; exact hso x hx)⟩
+      · exact ⟨(by rw [weightOf_setParent]; exact hsw), fun x hx => (by rw [weightOf_setParent]; exact hso x hx)⟩
+    | some p =>
+      rw [hp] at ha; simp only at ha
+      split at ha
+      · injection ha with ha; subst ha; exact ⟨hsw, hso⟩
+      · cases hr : reaches (setWeight h sid w) sid (setWeight h sid w).length (some p.id) with
+        | none => rw [hr] at ha; simp at ha
+        | some r =>
+          rw [hr] at ha; simp only at ha
+          injection ha with ha; subst ha
+          have h2 : ∀ x, weightOf (if r = true then setParent (setWeight h sid w) p.id st.parent
+              else setWeight h sid w) x = weightOf (setWeight h sid w) x := by
+            intro x; split
+            · rw [weightOf_setParent]
+            · rfl
+          split
+          · exact ⟨(by rw [weightOf_adopt, weightOf_setParent, h2]; exact hsw),
+              fun x hx => (by rw [weightOf_adopt, weightOf_setParent, h2]; exact hso x hx)⟩
+          · exact ⟨(by rw [weightOf_setParent, h2]; exact hsw),
+              fun x hx => (by rw [weightOf_setParent, h2]; exact hso x hx)⟩
+
+/-- closing a stream (also an interior node of the tree) changes no parent pointer and no weight:
+    its children keep pointing at the closed object, which stays in the ancestor walk. -/
+theorem C36_close_keeps_tree (h : Heap) (a : Nat) :
+    parOf (closeNode h a) = parOf h ∧ ∀ x, weightOf (closeNode h a) x = weightOf h x :=
+  ⟨parOf_closeNode h a, weightOf_closeNode h a⟩
+
+/-- **wire level**: whatever frames arrive (HEADERS on any id incl. 0 / even / old / open streams,
+    PRIORITY, RST_STREAM incl. idle streams, before or after GOAWAY), the connection's tree moves only
+    along `step`: every state is reachable in the sense of `Reach`, hence acyclic, and the frame is
+    processed in finite time. -/
+theorem C36_wire_reachable {c : Conn} (o : Op) (hr : Reach c.heap) :
+    ∃ c', wireStep c o = some c' ∧ Reach c'.heap := by
+  have key : ∀ o', ∃ h', step c.heap o' = some h' ∧ Reach h' := by
+    intro o'
+    have ht := C36_terminates hr o'
+    cases hs : step c.heap o' with
+    | none => rw [hs] at ht; cases ht
+    | some h' => exact ⟨h', rfl, Reach.next o' hr hs⟩
+  unfold wireStep
+  split
+  · exact ⟨c, rfl, hr⟩
+  · cases o with
+    | new id pr =>
+      simp only
+      split
+      · exact ⟨_, rfl, hr⟩
+      · split
+        · exact ⟨_, rfl, hr⟩
+        · split
+          · exact ⟨_, rfl, hr⟩
+          · split
+            · obtain ⟨h', hs, hr'⟩ := key (.close id)
+              exact ⟨{ c with heap := h' }, by rw [hs]; rfl, hr'⟩
+            · split
+              · exact ⟨_, rfl, hr⟩
+              · obtain ⟨h', hs, hr'⟩ := key (.new id pr)
+                exact ⟨{ c with heap := h' }, by rw [hs]; rfl, hr'⟩
+    | prio id dep excl w =>
+      simp only
+      split
+      · exact ⟨_, rfl, hr⟩
+      · obtain ⟨h', hs, hr'⟩ := key (.prio id dep excl w)
+        exact ⟨{ c with heap := h' }, by rw [hs]; rfl, hr'⟩
+    | close id =>
+      simp only
+      split
+      · exact ⟨_, rfl, hr⟩
+      · split
+        · exact ⟨_, rfl, hr⟩
+        · obtain ⟨h', hs, hr'⟩ := key (.close id)
+          exact ⟨{ c with heap := h' }, by rw [hs]; rfl, hr'⟩
+
 /-! Non-vacuity: concrete reachable heaps hitting the three interesting cases. -/
 -- dependency on own descendant: 1 ← 3 ← 5, then PRIORITY 1 depends on 5
 example : (step [⟨1, none, 0, true⟩, ⟨3, some 1, 0, true⟩, ⟨5, some 3, 0, true⟩] (.prio 1 5 false 7)) =
